@@ -164,7 +164,26 @@ EV = [0.25, 0.5, 0.75, 1.0]      # evaluation times = the step boundaries (50, 1
 ETAGS = ["energy", "energy_variance", "energy_second_moment"]
 
 
-def run_backend(prob, atoms, bad, backend: str, reorder: bool, leak: bool, perm=None, shots=40, slm=False):
+def noise_ops(kind: str, dim: int):
+    """single-atom Lindblad operators (levels g = 0, r = 1, x = 2); rates per µs chosen so that the trajectory norm decays
+    visibly within 200 ns. None of them excites |g⟩, so a dark atom stays dark under the noise as well."""
+    import torch
+    base = kind.split("-")[0]
+    z = lambda: torch.zeros(dim, dim, dtype=torch.complex128)
+    ops = []
+    if base == "relax":
+        L = z(); L[0, 1] = 2.0; ops.append(L)                      # r → g
+    elif base == "dephase":
+        L = z(); L[0, 0] = 0.0; L[1, 1] = 1.8; ops.append(L)       # phase noise on r
+    elif base == "eff":
+        L = z(); L[0, 1] = 1.2 + 0.5j; L[1, 1] = 0.9; ops.append(L)
+        M = z(); M[1, 1] = -0.7j; M[0, 1] = 0.4; ops.append(M)
+    if dim == 3:
+        X = z(); X[2, 1] = 1.1; X[0, 2] = 0.8; ops.append(X)        # leakage r → x and x → g
+    return ops
+
+
+def run_backend(prob, atoms, bad, backend: str, reorder: bool, leak: bool, perm=None, shots=40, slm=False, noise=None):
     """run on the listed atoms (register order kept); returns occupation/correlation per atom id at the end, the three
     Hamiltonian observables at every evaluation time, bitstrings"""
     import numpy as np
@@ -181,6 +200,8 @@ def run_backend(prob, atoms, bad, backend: str, reorder: bool, leak: bool, perm=
         L = torch.zeros(3, 3, dtype=torch.complex128)
         L[0, 2] = 1e-4          # a leakage channel far too weak to fire: 3 levels, deterministic dynamics
         ops, eig = [L], ("r", "g", "x")
+    if noise:
+        ops = noise_ops(noise, 3 if leak else 2)
     any_bad = any(bad[i] for i in idx)
     mU, slm_end = None, 0.0
     if slm:
@@ -191,19 +212,24 @@ def run_backend(prob, atoms, bad, backend: str, reorder: bool, leak: bool, perm=
                                      qubit_ids=[f"q{i}" for i in idx], bad_atoms=[bad[i] for i in idx],
                                      state_prep_error=0.1 if any_bad else 0.0, lindblad_ops=ops, eigenstates=eig,
                                      masked_U=mU, slm_end_time=slm_end)
-    obs = [pb.Occupation(evaluation_times=[1.0]), pb.CorrelationMatrix(evaluation_times=[1.0]),
+    obs = [pb.Occupation(evaluation_times=EV), pb.CorrelationMatrix(evaluation_times=[1.0]),
            pb.Energy(evaluation_times=EV), pb.EnergyVariance(evaluation_times=EV),
            pb.EnergySecondMoment(evaluation_times=EV), pb.BitStrings(evaluation_times=[1.0], num_shots=shots)]
+    # the masked run and the reduced run get the same random stream (quantum jumps of the Monte-Carlo solver, sampling);
+    # "-nojump": the jump threshold is pinned to ~0 so that the trajectory norm decays and no jump ever fires
     random.seed(12345)
     torch.manual_seed(12345)
-    if backend == "sv":
-        r = compat.run_sv(data, compat.sv_config(observables=obs, dt=10))
-    else:
-        cfg = compat.mps_config(observables=obs, dt=10, precision=1e-10, optimize_qubit_ordering=reorder)
-        if reorder:
-            with mock.patch.object(impl_mod.optimat, "minimize_bandwidth", lambda M: torch.tensor(perm, dtype=torch.int64)):
-                r = compat.run_mps(data, cfg)
+    import contextlib
+    with contextlib.ExitStack() as stack:
+        if noise and noise.endswith("-nojump"):
+            stack.enter_context(mock.patch("random.uniform", lambda a, b: a + 1e-30 * (b - a)))
+        if backend == "sv":
+            r = compat.run_sv(data, compat.sv_config(observables=obs, dt=10))
         else:
+            cfg = compat.mps_config(observables=obs, dt=10, precision=1e-10, optimize_qubit_ordering=reorder)
+            if reorder:
+                stack.enter_context(mock.patch.object(impl_mod.optimat, "minimize_bandwidth",
+                                                      lambda M: torch.tensor(perm, dtype=torch.int64)))
             r = compat.run_mps(data, cfg)
     ao = list(r.atom_order)
     occ = torch.as_tensor(r.get_result("occupation", 1.0)).tolist()
@@ -211,20 +237,24 @@ def run_backend(prob, atoms, bad, backend: str, reorder: bool, leak: bool, perm=
     return dict(order=ao, occ={a: complex(occ[k]).real for k, a in enumerate(ao)},
                 cor={(a, b): complex(cor[k][l]).real for k, a in enumerate(ao) for l, b in enumerate(ao)},
                 energy=float(r.get_result("energy", 1.0)), bits=dict(r.get_result("bitstrings", 1.0)),
-                ham={tag: [complex(r.get_result(tag, t)).real for t in EV] for tag in ETAGS})
+                ham={tag: [complex(r.get_result(tag, t)).real for t in EV] for tag in ETAGS},
+                occ_t=[{a: complex(x).real for a, x in zip(ao, torch.as_tensor(r.get_result("occupation", t)).tolist())} for t in EV])
 
 
-def oracle_case(cs: int, n: int, bad: tuple, backend: str, reorder: bool, leak: bool, cache=None, slm: bool = False):
+def oracle_case(cs: int, n: int, bad: tuple, backend: str, reorder: bool, leak: bool, cache=None, slm: bool = False,
+                noise=None):
     """C25 on one (problem, mask, back-end configuration). Returns [(msg, data, klass)]."""
     prob = make_problem(cs, n)
     info = {"case_seed": cs, "n": n, "bad": list(bad), "backend": backend, "reorder": reorder, "leak": leak, "slm": slm}
     if slm:
         info.update(slm_atom=prob["slm_atom"], slm_end=prob["slm_end"])
+    if noise:
+        info["noise"] = noise
     fails = []
     good = [i for i in range(n) if not bad[i]]
     perm = prob["site_perm"]
     try:
-        full = run_backend(prob, range(n), bad, backend, reorder, leak, perm=perm, slm=slm)
+        full = run_backend(prob, range(n), bad, backend, reorder, leak, perm=perm, slm=slm, noise=noise)
     except ValueError as e:
         if backend == "mps" and len(good) <= 1 and "do state vector" in str(e):
             return [(f"emu-mps raises ValueError({e}) with {len(good)} surviving atom(s) (mask bad={list(bad)}); emu-sv runs it",
@@ -257,16 +287,18 @@ def oracle_case(cs: int, n: int, bad: tuple, backend: str, reorder: bool, leak: 
         return fails
     if backend == "mps" and len(good) < 2:
         ref_backend = "sv"
+    if noise and ref_backend != backend:
+        return fails        # a trajectory cannot be compared with the density-matrix solver
     red_perm = None
     if reorder and ref_backend == "mps":
         pos = {a: k for k, a in enumerate(good)}
         red_perm = [pos[a] for a in perm if a in pos]
-    key = (cs, n, tuple(good), ref_backend, reorder and ref_backend == "mps", leak and ref_backend == "mps", slm)
+    key = (cs, n, tuple(good), ref_backend, reorder and ref_backend == "mps", leak and ref_backend == "mps", slm, noise)
     if cache is not None and key in cache:
         red = cache[key]
     else:
         red = run_backend(prob, good, [False] * n, ref_backend, reorder and ref_backend == "mps",
-                          leak and ref_backend == "mps", perm=red_perm, slm=slm)
+                          leak and ref_backend == "mps", perm=red_perm, slm=slm, noise=noise)
         if cache is not None:
             cache[key] = red
     for i in good:
@@ -274,6 +306,19 @@ def oracle_case(cs: int, n: int, bad: tuple, backend: str, reorder: bool, leak: 
         if abs(a - b) > tol:
             fails.append((f"good atom q{i}: occupation {a!r} with the mask, {b!r} on the reduced register (|Δ| = {abs(a - b):.2e} > {tol:g})", info, None))
             break
+    for k, t in enumerate(EV):
+        for i in range(n):
+            a = full["occ_t"][k][ids[i]]
+            if bad[i] and abs(a) > 1e-12:
+                fails.append((f"bad atom q{i} reports occupation {a!r} ≠ 0 at t = {200.0 * t:g} ns", info, None))
+                break
+            if not bad[i] and abs(a - red["occ_t"][k][ids[i]]) > tol:
+                fails.append((f"good atom q{i} at t = {200.0 * t:g} ns: occupation {a!r} with the mask, "
+                              f"{red['occ_t'][k][ids[i]]!r} on the reduced register", info, None))
+                break
+        else:
+            continue
+        break
     worst = max(abs(full["cor"][(ids[i], ids[j])] - red["cor"][(ids[i], ids[j])]) for i in good for j in good)
     if worst > tol:
         fails.append((f"correlation matrix of the good atoms differs from the reduced run by {worst:.2e} > {tol:g}", info, None))
@@ -289,8 +334,9 @@ def oracle_case(cs: int, n: int, bad: tuple, backend: str, reorder: bool, leak: 
                 fails.append((f"{tag} at t = {200.0 * t:g} ns{when}: {a!r} with the mask, {b!r} on the reduced register", info, None))
                 break
     # emu-mps against emu-sv on the same masked problem. TDVP's splitting error depends on the site order (up to ~1e-2 on
-    # these strongly interacting registers), so only the natural order is compared, with a 1e-2 relative allowance.
-    if backend == "mps" and not leak and not reorder:
+    # these strongly interacting registers), so only the natural order is compared, with a 5e-2 relative allowance
+    # (observed clean-tree spread up to 1.2e-2 on the energy variance; the cached-MPO seed r03 is off by O(1)).
+    if backend == "mps" and not leak and not reorder and not noise:
         skey = (cs, n, tuple(bad), "sv-masked", slm)
         if cache is not None and skey in cache:
             svr = cache[skey]
@@ -302,16 +348,21 @@ def oracle_case(cs: int, n: int, bad: tuple, backend: str, reorder: bool, leak: 
             for k, t in enumerate(EV):
                 a, b = full["ham"][tag][k], svr["ham"][tag][k]
                 e2 = abs(svr["ham"]["energy_second_moment"][k])
-                if abs(a - b) > 1e-2 * max(1.0, abs(b), math.sqrt(e2) if tag == "energy" else e2):
+                if abs(a - b) > 5e-2 * max(1.0, abs(b), math.sqrt(e2) if tag == "energy" else e2):
                     fails.append((f"{tag} at t = {200.0 * t:g} ns: emu-mps {a!r} vs emu-sv {b!r} on the same masked problem", info, None))
                     break
     return fails
 
 
 # (back-end, reorder, leak, SLM mask ending inside the sequence)
-CONFIGS = [("sv", False, False, False), ("mps", False, False, False), ("mps", True, False, False), ("mps", False, True, False),
-           ("mps", True, True, False), ("sv", False, False, True), ("mps", False, False, True), ("mps", True, False, True),
-           ("mps", True, True, True)]
+# (back-end, reorder, leak, SLM mask ending inside the sequence, Lindblad noise)
+CONFIGS = [("sv", False, False, False, None), ("mps", False, False, False, None), ("mps", True, False, False, None),
+           ("mps", False, True, False, None), ("mps", True, True, False, None), ("sv", False, False, True, None),
+           ("mps", False, False, True, None), ("mps", True, False, True, None), ("mps", True, True, True, None),
+           # noisy: emu-sv = density-matrix solver; emu-mps = Monte-Carlo trajectories (same random stream in both runs)
+           ("sv", False, False, False, "relax"), ("sv", False, False, True, "eff"), ("mps", False, False, False, "relax"),
+           ("mps", True, False, False, "dephase"), ("mps", False, True, False, "eff"), ("mps", True, True, True, "relax"),
+           ("mps", False, False, False, "eff-nojump"), ("mps", True, True, False, "dephase-nojump")]
 
 
 def oracle_plan(rng, tier: str):
@@ -323,7 +374,9 @@ def oracle_plan(rng, tier: str):
         masks = list(itertools.product([False, True], repeat=n))
         for ci, cfg in enumerate(CONFIGS):
             ms = masks
-            if tier == "quick" and (ci in (3, 7) or (n == 2 and ci in (4, 5))):
+            if cfg[0] == "sv" and cfg[4] and n > 4:
+                continue        # density matrices of 5 atoms: 1024², skipped for time
+            if tier == "quick" and (ci in (3, 7) or (n == 2 and ci in (4, 5)) or (n == 5 and cfg[4]) or (n == 2 and ci in (12, 16))):
                 continue        # quick: the leak-only and the reorder-only SLM configurations are covered by their combinations
             if tier == "quick" and n >= 4:
                 ms = rng.sample(masks, 5 if n == 4 else 3)
@@ -336,17 +389,19 @@ def oracle_plan(rng, tier: str):
 
 def run_oracle(rep: Report, plan, first_only=False) -> None:
     cache = {}
-    for cs, n, bad, (backend, reorder, leak, slm) in plan:
+    for cs, n, bad, (backend, reorder, leak, slm, noise) in plan:
         try:
-            fails = oracle_case(cs, n, bad, backend, reorder, leak, cache, slm=slm)
+            fails = oracle_case(cs, n, bad, backend, reorder, leak, cache, slm=slm, noise=noise)
         except Exception as e:
             import traceback
             fails = [(f"real code raised {type(e).__name__}: {e}",
                       {"case_seed": cs, "n": n, "bad": list(bad), "backend": backend, "reorder": reorder, "leak": leak,
-                       "slm": slm, "trace": traceback.format_exc()[-700:]}, None)]
-        rep.case(key=("oracle", cs, bad, backend, reorder, leak, slm), nontrivial=any(bad), trace=False,
-                 sample={"n": n, "bad": list(bad), "backend": backend, "reorder": reorder, "leak": leak, "slm": slm} if any(bad) else None)
-        rep.hist("oracle_config", f"{backend}{'+reorder' if reorder else ''}{'+leak' if leak else ''}{'+slm' if slm else ''}")
+                       "slm": slm, "noise": noise, "trace": traceback.format_exc()[-700:]}, None)]
+        rep.case(key=("oracle", cs, bad, backend, reorder, leak, slm, noise), nontrivial=any(bad), trace=False,
+                 sample={"n": n, "bad": list(bad), "backend": backend, "reorder": reorder, "leak": leak, "slm": slm,
+                         "noise": noise} if any(bad) else None)
+        rep.hist("oracle_config", f"{backend}{'+reorder' if reorder else ''}{'+leak' if leak else ''}{'+slm' if slm else ''}"
+                                  f"{'+' + noise if noise else ''}")
         rep.hist("oracle_survivors", min(n - sum(bad), 3))
         for msg, data, klass in fails:
             rep.fail(msg, data, klass=klass)
@@ -362,7 +417,7 @@ def check(rep: Report, tier: str, seed: int) -> None:
                 "50 ns (dt = 10), optionally one atom SLM-masked until 50/100/150 ns; Energy / EnergyVariance / EnergySecondMoment at "
                 "50, 100, 150, 200 ns; thorough = all masks × {sv, mps, mps+reorder, mps+leak, mps+reorder+leak} × {no SLM, SLM}; quick = all masks on 2–3 atoms "
                 "+ a seeded sample on 4–5. tolerance 1e-8 (sv) / 1e-7 (mps, precision 1e-10, same relative site order in the "
-                "reduced run); emu-mps (natural order) vs emu-sv on the same masked problem 1e-2 relative (TDVP splitting error). non-trivial = at least one bad atom")
+                "reduced run); emu-mps (natural order) vs emu-sv on the same masked problem 5e-2 relative (TDVP splitting error); noisy configurations (relaxation / dephasing / effective noise, 2 and 3 levels; emu-sv density matrices, emu-mps trajectories with the same random stream in the masked and the reduced run, or with the jump threshold pinned so that no jump fires), occupations of every atom at every evaluation time. non-trivial = at least one bad atom")
     rep.assumptions = [
         "accuracy of the time-steppers (emu-sv Krylov, emu-mps TDVP): DynamicsAsAbsent is stated, not proved; validated by the masked-vs-reduced oracle",
         "the permutation of the mask / drives / interaction matrix into site order is C03's subject; here it is exercised end to end with a forced non-identity order",
@@ -404,7 +459,7 @@ def replay(rep: Report, path: str) -> int:
         d = f["data"]
         try:
             fails = oracle_case(d["case_seed"], d["n"], tuple(d["bad"]), d["backend"], d["reorder"], d["leak"],
-                                slm=d.get("slm", False))
+                                slm=d.get("slm", False), noise=d.get("noise"))
         except Exception as e:
             fails = [(f"real code raised {type(e).__name__}: {e}", d, None)]
         for msg, _, klass in fails:
